@@ -50,3 +50,36 @@ Example C01_example :
   = [37;48;48; 37;50;50; 37;70;48;37;57;70;37;57;56;37;56;48; 37;50;53;122; 37;67;51; 37;50;48].
 Proof. split; vm_compute; reflexivity. Qed.
 Print Assumptions C01_example.
+
+(** URL level.  For every input string, the path, query and fragment the constructor
+    stores satisfy the per-component predicate (the path also after dot-segment removal:
+    an escape never spans a '/', so dropping whole segments keeps well-formedness) ... *)
+From Yarl Require Import Model.Url Proofs.UrlWfProofs.
+Theorem C01_constructor_components : forall (O : oracles) (B : backend) (s : str) (u : url),
+  valid_str s -> encode_url O B s = Ok u ->
+  comp_ok rfc_path_char (u_path u) = true /\ comp_ok rfc_query_char (u_query u) = true
+  /\ comp_ok rfc_fragment_char (u_fragment u) = true.
+Proof. exact encode_url_components_ok. Qed.
+Print Assumptions C01_constructor_components.
+
+(** ... and so do the components written by with_path, with_fragment and with_user *)
+Theorem C01_with_path : forall (B : backend) (u : url) (p : str) (kq kf : bool),
+  valid_str p -> comp_ok rfc_path_char (u_path (with_path B u p false kq kf)) = true.
+Proof. exact with_path_ok. Qed.
+Print Assumptions C01_with_path.
+Theorem C01_with_fragment : forall (B : backend) (u : url) (t : str),
+  valid_str t -> comp_ok rfc_fragment_char (u_fragment (with_fragment B u (Some t))) = true.
+Proof. exact with_fragment_ok. Qed.
+Print Assumptions C01_with_fragment.
+Theorem C01_with_user : forall (B : backend) (u : url) (t : str) (u' : url),
+  valid_str t -> with_user B u (Some t) = Ok u' ->
+  exists pw hs p, u_netloc u' = make_netloc' B (Some (Q B QUOTER t)) pw (Some hs) p false
+    /\ comp_ok rfc_userinfo_part (Q B QUOTER t) = true.
+Proof. exact with_user_ok. Qed.
+Print Assumptions C01_with_user.
+
+(** dot-segment removal preserves the component predicate *)
+Theorem C01_normalize_preserves : forall (allowed : N -> bool) (p : str),
+  allowed 47%N = true -> comp_ok allowed p = true -> comp_ok allowed (normalize_path p) = true.
+Proof. exact normalize_path_comp_ok. Qed.
+Print Assumptions C01_normalize_preserves.
